@@ -1,22 +1,24 @@
-use proptest::strategy::{Strategy, ValueTree};
-use proptest::test_runner::{Config, RngAlgorithm, TestRng, TestRunner};
-use vp::engine::{Stats, SubCheckT, Tier};
-use vp::props::c05::*;
+use rsdd::repr::{Cnf, Literal, VarLabel};
+use vp::engine::splitmix;
 fn main() {
-    let mut runner = TestRunner::new_with_rng(Config::default(), TestRng::from_seed(RngAlgorithm::ChaCha, &[7u8; 32]));
-    let strat = <CnfLarge as SubCheckT>::strategy(Tier::Quick);
-    let mut tot = std::time::Duration::ZERO;
-    let mut worst = std::time::Duration::ZERO;
-    for i in 0..20000 {
-        let case = strat.new_tree(&mut runner).unwrap().current();
-        let t = std::time::Instant::now();
-        let r = std::thread::scope(|_| run_cnf_large(&case, &mut Stats::default()));
-        let e = t.elapsed();
-        tot += e;
-        if e > worst { worst = e; println!("worst so far #{} {:?} vt {} clauses {}", i, e, case.vtree_kind, case.clauses.len()); }
-        if e.as_millis() > 200 {
-            println!("#{} {:?} vt {} clauses {} in {:?}: {:?}", i, r.map_err(|f| f.signature), case.vtree_kind, case.clauses.len(), e, case.clauses);
+    for n in [130usize, 260, 400, 600, 1030] {
+        let mut cl = Vec::new();
+        let mut s = 77u64;
+        for _ in 0..n {
+            let mut c = Vec::new();
+            for _ in 0..3 {
+                s = splitmix(s);
+                c.push(Literal::new(VarLabel::new_usize((s as usize) % n), (s >> 40) & 1 == 1));
+            }
+            cl.push(c);
         }
+        let cnf = Cnf::new(&cl);
+        let t = std::time::Instant::now();
+        let o = cnf.min_fill_order();
+        let t1 = t.elapsed();
+        let f = cnf.force_order();
+        let t2 = t.elapsed() - t1;
+        let h = cnf.hasher();
+        println!("n {} min_fill {:?} force {:?} vars {} {} hasher? {}", n, t1, t2, o.num_vars(), f.num_vars(), std::mem::size_of_val(h));
     }
-    println!("total {:?}", tot);
 }
